@@ -40,6 +40,7 @@ func init() { drive.Register("slash", run) }
 
 // Pair is one (hash, signature) pair of an evidence: Src says which vote of the signer the signature comes from
 // ("prevote", "precommit", "nextindex", "certificate"), or "forged" (the signer's signature over another hash),
+// "reuseA" / "reuseB" (the bytes of the signer's genuine signature over hash A / B, attached to whatever hash the pair names),
 // "otherindex" / "otherround" (the signer's signature over the hash at the next index / round), "otherkey" (a valid
 // signature by a key that is no validator's), "garbage" (undecodable bytes).
 type Pair struct {
@@ -332,6 +333,9 @@ func (w *world) evidence(c *Case, parent0 uint64, cur *state.Validators, bc *cor
 		case "prevote", "precommit", "nextindex", "certificate":
 			// what the signer's voter produced for a vote of this kind: the kind is not part of the signed payload
 			sig = w.sign(key, fmt.Sprint("v", c.Signer), h, c.Round, ri, kindNo[p.Src])
+		case "reuseA", "reuseB":
+			// the bytes of the signer's genuine signature over hash A (B) of this round and index, whatever hash the pair names
+			sig = w.sign(key, fmt.Sprint("v", c.Signer), hashes[p.Src[5:]], c.Round, ri, kind)
 		case "forged":
 			sig = w.sign(key, fmt.Sprint("v", c.Signer), hashes["C"], c.Round, ri, kind)
 		case "otherindex":
